@@ -19,7 +19,7 @@ from models import harness, outcomes
 LEVEL = 'model_checking'
 KINDS = outcomes.KINDS + outcomes.EXTRA_KINDS
 STYLES = ['auto', 'google', 'freeform']
-OPTIONS = [None, '+SKIP', '-ELLIPSIS', '+IGNORE_WHITESPACE']
+OPTIONS = [None, '+SKIP', '-ELLIPSIS', '+IGNORE_WHITESPACE', 'env:+SKIP']
 NATIVE_RE = re.compile(r'^\* (SUCCESS|FAILURE|SKIPPED): .*::(\S+)$', re.M)
 
 
@@ -38,20 +38,34 @@ def run_pytest(d, fname, style, opt):
     buf = io.StringIO()
     args = ['--xdoctest', '--xdoctest-style=' + style, *harness.PYTEST_ISOLATION_ARGS, '-q', '--rootdir', d,
             '-c', '/dev/null', fname]
-    if opt:
+    if opt and not opt.startswith('env:'):
         args.insert(2, '--xdoctest-options=' + opt)
-    with contextlib.redirect_stdout(buf), contextlib.redirect_stderr(buf), harness.fresh_process_warning_filters():
+    with contextlib.redirect_stdout(buf), contextlib.redirect_stderr(buf), harness.fresh_process_warning_filters(), env_options(opt):
         rc = pytest.main(args, plugins=[r])
     return r.out, int(rc), buf.getvalue()
+
+
+@contextlib.contextmanager
+def env_options(opt):
+    """'env:<options>': the default options come from the documented environment variable instead of the command line"""
+    old = os.environ.pop('XDOCTEST_OPTIONS', None)
+    if opt and opt.startswith('env:'):
+        os.environ['XDOCTEST_OPTIONS'] = opt[4:]
+    try:
+        yield
+    finally:
+        os.environ.pop('XDOCTEST_OPTIONS', None)
+        if old is not None:
+            os.environ['XDOCTEST_OPTIONS'] = old
 
 
 def run_native(fname, style, opt):
     from xdoctest.__main__ import main as xmain
     buf = io.StringIO()
     argv = ['xdoctest', fname, 'all', '--style=' + style, '--verbose=1', '--nocolor']
-    if opt:
+    if opt and not opt.startswith('env:'):
         argv.append('--options=' + opt)
-    with contextlib.redirect_stdout(buf), contextlib.redirect_stderr(buf), harness.fresh_process_warning_filters():
+    with contextlib.redirect_stdout(buf), contextlib.redirect_stderr(buf), harness.fresh_process_warning_filters(), env_options(opt):
         try:
             rc = xmain(argv)
         except SystemExit as ex:
@@ -112,7 +126,8 @@ class FrontEndSpec(Spec):
                 for style in STYLES:
                     for opt in OPTIONS:
                         n += 1
-                        exp = {outcomes.fname(j) + ':0': outcomes.outcome(kd, opt) for j, kd in enumerate(kinds)}
+                        opt_ = opt[4:] if (opt and opt.startswith('env:')) else opt
+                        exp = {outcomes.fname(j) + ':0': outcomes.outcome(kd, opt_) for j, kd in enumerate(kinds)}
                         exp_p = {k: ('skipped' if v == 'disabled' else v) for k, v in exp.items()}
                         exp_n = {k: v for k, v in exp.items() if v != 'disabled'}
                         anyfail = any(v == 'failed' for v in exp.values())
